@@ -246,7 +246,7 @@ impl Prop for Equivalence {
     fn gen(&self, t: &mut Tape) -> Case {
         let w = if t.chance(1, 2) { 8 } else { 4 };
         let mut cfg = GenCfg::rich(w);
-        cfg.max_items = 2 + t.below(10);
+        cfg.max_items = 2 + t.below(10 * crate::driver::scale());
         let (prog, _, _) = gen_prog(t, cfg);
         let only = if t.chance(1, 4) { Some(t.pick(KINDS).to_string()) } else { None };
         Case { prog, w, seed: t.u64(), only }
